@@ -214,6 +214,14 @@ class Shadow:
         opens = [b for b in tab if not b.closed]
         if len(tab.open) != len(opens) or any(x is not y for x, y in zip(tab.open, opens)):
             raise Fail('open-view', 'open view lists %d branches, %d are unclosed (or order differs)' % (len(tab.open), len(opens)))
+        # the view is a sequence: reading it by position (from either end) and by membership agrees
+        no = len(opens)
+        for j in range(no):
+            if tab.open[j] is not opens[j] or tab.open[j - no] is not opens[j]:
+                raise Fail('open-view', 'open view position %d (of %d) is not the %d-th unclosed branch' % (j, no, j))
+        for b in tab:
+            if (b in tab.open) != (not b.closed):
+                raise Fail('open-view', 'open view membership of a branch disagrees with branch.closed')
         # stat() step numbers
         K = Tableau.StatKey
         for i, b in enumerate(tab):
